@@ -41,3 +41,5 @@ finally:
     sh('git -C /repo checkout -- .')
     st = sh('git -C /repo status --porcelain').stdout.strip()
     if st: print('WARNING: /repo still dirty:\n' + st)
+    # the harness binary links /repo: rebuild it against the reverted tree so that nobody runs a stale one
+    sh('cd /verif/qv && cargo build --offline -q; cargo build --offline -q --manifest-path /repo/Cargo.toml --bin qmluic --target-dir /verif/target/cli')
